@@ -167,12 +167,14 @@ def static_vs_dynamic(ctx, py: PyRepo, w: Wiring):
     for pm, bm in pairs.items():
         fn = py.method('ProofExp', pm)
         where = py.where('proof', fn)
+        from ..core.wiring import canon_components
         static = None
         for p in ev.paths(fn):
             if p.end[0] == 'return' and p.end[1][0] == 'call' and p.end[1][1] == ('name', 'ProofThunk') and len(p.end[1][2]) == 2:
-                static = p.end[1][2][1]
+                static = canon_components(p.end[1][2][1], p.conds, py)
         mf = PM.level_facts(py, w.basic, bm)
-        dyn = [rec['ret'] for rec in mf.paths if rec['ret'] is not None and rec['ret'] != ('param', 'proved')]
+        dyn = [canon_components(rec['ret'], rec['conds'], py) for rec in mf.paths
+               if rec['ret'] is not None and rec['ret'] != ('param', 'proved')]
         ok = static is not None and bool(dyn) and all(_same_term(w, norm(static), norm(d)) for d in dyn)
         ctx.ob('static-conclusion', pm, ok,
                f'ProofExp.{pm} advertises {show(static) if static else None} but BasicInterpreter.{bm} returns '
@@ -211,6 +213,8 @@ class _LeafEnv(dict):
 
     def __contains__(self, v):
         if isinstance(v, tuple) and v:
+            if v[0] == 'component':
+                return True
             if v[0] == 'call' and v[1][0] == 'name':
                 return False
             if v[0] in ('const',):
